@@ -47,6 +47,16 @@ def match_known(known, prop, group, failure):
     return None
 
 
+_SAFETY_NAME = re.compile(r"\.(pointer_dereference|array_bounds|overflow|division-by-zero|pointer_arithmetic|pointer|undefined-shift|"
+                          r"pointer_primitives|deallocated|dead_object|alignment|unwind|assigns)\.")
+_SAFETY_DESC = re.compile(r"^(xtensor index in range|kept assert|unwinding assertion|.*index in range|.*model capacity|read stays inside)")
+
+
+def is_safety(f):
+    """memory-safety / undefined-behaviour class obligations (what C08 is about), as opposed to functional contract clauses"""
+    return bool(_SAFETY_NAME.search(f["property"]) or _SAFETY_DESC.search(f["description"]))
+
+
 def main():
     ap = argparse.ArgumentParser()
     ap.add_argument("prop")
@@ -107,13 +117,27 @@ def main():
             for f in r["failed"]:
                 if f["supporting"]:
                     continue
+                if meta.get("safety_only") and not is_safety(f):
+                    # a functional clause of another property failed in a group that C08 only borrows for its safety obligations:
+                    # it is judged (violation or known finding) by that property's own check
+                    entry.setdefault("functional_failures_judged_by_their_own_property", []).append(f["property"])
+                    continue
                 k = match_known(known, prop, g.name, f)
                 if k:
                     known_hits.append((k, g, f))
                     entry.setdefault("known_findings", []).append(k["id"])
                 else:
                     kn_all = False
-                    if g.deciding:
+                    if g.deciding == "replay" and not is_safety(f):
+                        # clause written in one of several associations that agree up to rounding (the property says "within rounding"):
+                        # a violation only if the native oracle reproduces a deviation on the real code, otherwise the proof is detached
+                        path, reproduced = rp.write_replay(prop, g, r, f)
+                        if reproduced:
+                            violations.append((g, r, f))
+                        else:
+                            undecided.append((g, "obligation %s failed but the native oracle (%s) finds no deviation beyond rounding on the real "
+                                                 "code: proof detached, not a violation (replay file %s)" % (f["property"], g.replay, path)))
+                    elif g.deciding:
                         violations.append((g, r, f))
                     else:
                         undecided.append((g, "supporting group failed: %s" % f["description"]))
